@@ -1,6 +1,6 @@
 import construct as C
-from ceos_alos2 import datatypes as D
-from ceos_alos2.sar_image import enums as E
+from ceos_alos2_pinned import datatypes as D
+from ceos_alos2_pinned.sar_image import enums as E
 
 def describe(con, ctx_counts=None, base=0, path=(), out=None, chain=()):
     """walk construct object; returns end offset. ctx_counts: dict for Array counts keyed by path"""
@@ -45,14 +45,14 @@ def describe(con, ctx_counts=None, base=0, path=(), out=None, chain=()):
         out.append((path, base, 0, 'seek', chain)); return base
     raise TypeError(f'{path}: {type(con)}')
 if __name__ == '__main__':
-    from ceos_alos2.sar_image.file_descriptor import file_descriptor_record
-    from ceos_alos2.sar_image.signal_data import signal_data_record
-    from ceos_alos2.sar_image.processed_data import processed_data_record
+    from ceos_alos2_pinned.sar_image.file_descriptor import file_descriptor_record
+    from ceos_alos2_pinned.sar_image.signal_data import signal_data_record
+    from ceos_alos2_pinned.sar_image.processed_data import processed_data_record
     for name, rec in [('imgfd', file_descriptor_record), ('signal', signal_data_record), ('processed', processed_data_record)]:
         out=[]; end = describe(rec, {}, 0, (), out)
         print(name, 'end', end, 'fields', len(out))
-    from ceos_alos2.sar_leader import structure as S
-    import ceos_alos2.sar_leader.structure
+    from ceos_alos2_pinned.sar_leader import structure as S
+    import ceos_alos2_pinned.sar_leader.structure
     for sc in S.sar_leader_record.subcons:
         out=[]
         counts = {('attitude','data_points'):3, ('attitude','blanks'): 16384-16-360,
@@ -64,9 +64,9 @@ if __name__ == '__main__':
         for k in range(1,5): counts[(f'facility_related_data_{k}','raw_file_data')] = 1000-66
         end = describe(sc, counts, 0, (), out)
         print(sc.name, 'end', end, 'fields', len(out))
-    from ceos_alos2.volume_directory.structure import volume_descriptor, file_descriptor, text_record
+    from ceos_alos2_pinned.volume_directory.structure import volume_descriptor, file_descriptor, text_record
     for n, r in [('vd', volume_descriptor), ('fd', file_descriptor), ('text', text_record)]:
         out=[]; print(n, describe(r, {}, 0, (), out), len(out))
-    from ceos_alos2.sar_trailer.file_descriptor import file_descriptor_record as tfd
+    from ceos_alos2_pinned.sar_trailer.file_descriptor import file_descriptor_record as tfd
     out=[]; print('trailer', describe(tfd, {('low_resolution_image_sizes',):2, ('blanks',):720-522-52}, 0, (), out), len(out))
     print([o for o in out if o[0][0]=='number_of_low_resolution_images'])
